@@ -130,6 +130,9 @@ func (e *Engine) checkProperty(verif, prop, tier string, t0 time.Time) int {
 	} else {
 		var keep []string
 		for _, n := range names {
+			if nn, ok := e.renamed[n]; ok {
+				n = nn // the contract was re-bound to the renamed function
+			}
 			if _, ok := e.funcs[n]; !ok && !strings.HasPrefix(n, "bv:") && !strings.HasPrefix(n, "own:") && !strings.HasPrefix(n, "model:") {
 				missing = append(missing, n)
 				continue
